@@ -137,5 +137,20 @@ CHECKS["C14"].update(category="proof",
          "Tied to the code by declared/actual kinds of the model vs channel.dtype / returned arrays, and by the exhaustive raw type x scale kind x read kind oracle.",
     technique="Lean 4 proof (induction along the wiring + decide +kernel over regenerated NumPy tables) + exhaustive type x scale enumeration")
 
+CHECKS["C01"].update(category="proof",
+    text="Layer theorems, each for arbitrary sizes and an arbitrary byte order: integer/string codecs, value canonicalisation for all 16 fixed-width types, property "
+         "and raw-data-index (standard and DAQmx) parse round trips, lead-in round trip incl. all six ToC flags and the length-unknown marker, fixed-width and string "
+         "contiguous data, whole contiguous chunks, interleaved column selection and value positions, and the metadata object loop for objects new to the reader "
+         "(readMeta_encMeta): the model's decoder applied to the spec's encoding returns the encoded thing and consumes exactly its bytes. The composition of the layers "
+         "into one whole-file theorem (read (encode e) = denote e incl. the inheritance state machine and multi-segment concatenation) is NOT proved; that composition is "
+         "covered by the correspondence of the executable model with the real reader and by the spec oracle (denote) on every generated file.",
+    technique="Lean 4 proof (parser/printer round trips by induction) + executable model correspondence + spec oracle")
+CHECKS["C15"].update(category="proof",
+    text="byte_order_irrelevant_*: for any two byte orders, decoding the e1-encoding in e1 gives the same result as decoding the e2-encoding in e2 — integers, strings, "
+         "values of every fixed-width type (complex = two atoms, timestamps reversed as a whole), properties, standard and DAQmx indexes, lead-ins (ToC always little-endian), "
+         "fixed-width / string / whole-chunk contiguous data, interleaved data, metadata blocks. Whole files: same content encoded all-little, all-big and mixed by the Lean "
+         "spec reads identically through the real reader and the model (DAQmx at scaler-value level).",
+    technique="Lean 4 proof (codec round trips parametric in the byte order) + spec encoder + pairwise oracle")
+
 NOTES = ("Properties move from not_applicable to checks as their model, correspondence and theorems are built; a check is claimed at `proof` only when its "
          "headline theorems are registered in lean/obligations.json. See DESIGN.md.")
